@@ -174,6 +174,7 @@ def execute(case: dict, lines: list, mask: list | None = None, probe: bool = Fal
                     "offered": None if rec["pool"] == "hidden" else bool(d["C"] if rec["op"] == "cancel" else d["F"]),
                     "status": "concluded" if d["state"] in CONCLUDED else "pending",
                     "state_before": h.state, "status_before": str(h.tagv("Method Status")),
+                    "paused_before": bool(e._runstate_paused), "holding_before": bool(e._runstate_holding),
                     "cmd_started": e.tracking.get_command(iid) is not None,
                     "later_invocation": earlier_ended(iid),
                 })
